@@ -283,6 +283,108 @@ theorem derivs_updated_missing_as_zero (q q' : ObjD) (indx : List Entry) (rhs : 
             obtain ⟨e1, e2⟩ := hsd _ _ _ y hfy
             exact ⟨y.2, by rw [← e1]; exact List.mem_append_right _ hy, e2⟩
 
+/-! ### the whole-object path (`a[...] = x`, `a[True] = x`, shapeless targets) -/
+
+/-- `broadcast_to`: the result has the target's shape and every element is the right-hand side's
+    element at the broadcast position, value and mask state alike -/
+theorem bcastRhs_spec (shape : Shape) (r : Rhs) (o : Obj) (h : bcastRhs shape r = some o) :
+    o.shape = shape ∧
+    (shape ≠ [] → bcast r.shape shape = some shape ∧
+      ∀ i, o.vals i = r.vals (bidx r.shape i) ∧ o.mask.bit i = r.mask.bit (bidx r.shape i)) ∧
+    (shape = [] → size r.shape = 1 ∧ ∀ i, o.vals i = r.vals [] ∧ o.mask.bit i = r.mask.bit []) := by
+  unfold bcastRhs at h
+  cases shape with
+  | nil =>
+    simp only [List.isEmpty_nil, if_true] at h
+    split at h
+    · rename_i hs
+      simp only [Option.some.injEq] at h; subst h
+      exact ⟨rfl, fun hne => absurd rfl hne, fun _ => ⟨by simpa using hs, fun i => ⟨rfl, rfl⟩⟩⟩
+    · simp at h
+  | cons n sh =>
+    simp only [List.isEmpty_cons, Bool.false_eq_true, if_false] at h
+    split at h
+    · rename_i hb
+      simp only [Option.some.injEq] at h; subst h
+      refine ⟨rfl, fun _ => ⟨by simpa using hb, fun i => ⟨rfl, ?_⟩⟩, fun he => by simp at he⟩
+      cases r.mask <;> rfl
+    · simp at h
+
+/-- **setitem_whole.**  On the whole-object path: an index with a masked Boolean or a `False`
+    changes nothing; otherwise EVERY element of the object is written — the object becomes the
+    right-hand side broadcast to its shape (values and mask state) — every derivative the object
+    had either becomes the right-hand side's (broadcast) or, if the right-hand side lacks it, zero
+    carrying the new mask; the right-hand side's other derivatives are added; nothing else. -/
+theorem setitem_whole (q q' : ObjD) (s : SState) (rhs : RhsD) (h : setitemWhole q s rhs = .ok q') :
+    ((s.masked || s.sizeZero) = true → q' = q) ∧
+    ((s.masked || s.sizeZero) = false →
+      bcastRhs q.main.shape rhs.main = some q'.main ∧
+      q'.derivs.length = q.derivs.length +
+        (rhs.derivs.filter fun kr => (lookupD kr.1 q.derivs).isNone).length ∧
+      (∀ kd ∈ q.derivs, ∃ d', (kd.1, d') ∈ q'.derivs ∧
+        match lookupD kd.1 rhs.derivs with
+        | some rd => bcastRhs q.main.shape rd = some d'
+        | none => d' = zeroObj q.main.shape q'.main.mask) ∧
+      (∀ kr ∈ rhs.derivs, (lookupD kr.1 q.derivs).isNone = true →
+        ∃ d', (kr.1, d') ∈ q'.derivs ∧ bcastRhs q.main.shape kr.2 = some d')) := by
+  unfold setitemWhole at h
+  constructor
+  · intro hm
+    simp only [hm, if_true, OutcomeD.ok.injEq] at h
+    exact h.symm
+  · intro hm
+    simp only [hm, Bool.false_eq_true, if_false] at h
+    cases hb : bcastRhs q.main.shape rhs.main with
+    | none => simp [hb] at h
+    | some m' =>
+      simp only [hb] at h
+      generalize hall : (List.map (fun (kd : String × Obj) =>
+            match lookupD kd.1 rhs.derivs with
+            | some rd => (bcastRhs q.main.shape rd).map fun d => (kd.1, d)
+            | none => some (kd.1, zeroObj q.main.shape m'.mask)) q.derivs ++
+          List.map (fun (kr : String × Rhs) => (bcastRhs q.main.shape kr.2).map fun d => (kr.1, d))
+            (rhs.derivs.filter fun kr => (lookupD kr.1 q.derivs).isNone)) = L at h
+      cases hL : L.mapM id with
+      | none => simp [hL] at h
+      | some ds =>
+        simp only [hL, OutcomeD.ok.injEq] at h
+        subst h
+        obtain ⟨hlen, hmem⟩ := mapM_some_mem id L ds hL
+        refine ⟨rfl, ?_, ?_, ?_⟩
+        · rw [hlen, ← hall]; simp
+        · intro kd hkd
+          have hin : (match lookupD kd.1 rhs.derivs with
+              | some rd => (bcastRhs q.main.shape rd).map fun d => (kd.1, d)
+              | none => some (kd.1, zeroObj q.main.shape m'.mask)) ∈ L := by
+            rw [← hall]; exact List.mem_append_left _ (List.mem_map.mpr ⟨kd, hkd, rfl⟩)
+          obtain ⟨y, hy, hfy⟩ := hmem _ hin
+          simp only [id] at hfy
+          cases hl : lookupD kd.1 rhs.derivs with
+          | none =>
+            simp only [hl, Option.some.injEq] at hfy
+            subst hfy
+            exact ⟨_, hy, rfl⟩
+          | some rd =>
+            simp only [hl] at hfy
+            cases hbr : bcastRhs q.main.shape rd with
+            | none => simp [hbr] at hfy
+            | some d =>
+              simp only [hbr, Option.map_some, Option.some.injEq] at hfy
+              subst hfy
+              exact ⟨d, hy, hbr⟩
+        · intro kr hkr hnone
+          have hin : ((bcastRhs q.main.shape kr.2).map fun d => (kr.1, d)) ∈ L := by
+            rw [← hall]
+            exact List.mem_append_right _ (List.mem_map.mpr ⟨kr, by simp [List.mem_filter, hkr, hnone], rfl⟩)
+          obtain ⟨y, hy, hfy⟩ := hmem _ hin
+          simp only [id] at hfy
+          cases hbr : bcastRhs q.main.shape kr.2 with
+          | none => simp [hbr] at hfy
+          | some d =>
+            simp only [hbr, Option.map_some, Option.some.injEq] at hfy
+            subst hfy
+            exact ⟨d, hy, rfl⟩
+
 /-! ### sequences of assignments -/
 
 theorem step_shape (q : Obj) (a : List Entry × Rhs) : (step q a).shape = q.shape := by
@@ -309,6 +411,57 @@ theorem sequence_of_assignments (P : Obj → Prop) (q : Obj) (as : List (List En
     have h1 := hstep q a (by simp) h0
     obtain ⟨i1, i2⟩ := ih (step q a) (fun q' a' ha' => hstep q' a' (by simp [ha'])) h1
     exact ⟨by simp only [assignAll, List.foldl_cons] at i1 ⊢; rw [i1, step_shape], i2⟩
+
+theorem setitemAny_shape (q q' : ObjD) (indx : List Entry) (rhs : RhsD)
+    (h : setitemAny q indx rhs = .ok q') : q'.main.shape = q.main.shape := by
+  unfold setitemAny at h
+  cases hw : wholePath q.main.shape indx with
+  | some s =>
+    simp only [hw] at h
+    obtain ⟨h1, h2⟩ := setitem_whole q q' s rhs h
+    cases hm : (s.masked || s.sizeZero) with
+    | true => rw [h1 hm]
+    | false => exact (bcastRhs_spec _ _ _ (h2 hm).1).1
+  | none =>
+    simp only [hw] at h
+    split at h
+    · simp at h
+    · unfold setitemD at h
+      cases hm : setitem q.main indx rhs.main with
+      | indexError => simp [hm] at h
+      | valueError => simp [hm] at h
+      | ok m' =>
+        have hs : m'.shape = q.main.shape := by
+          have := step_shape q.main (indx, rhs.main)
+          simpa [step, hm] using this
+        simp only [hm] at h
+        split at h
+        · simp at h
+        · split at h
+          · simp only [OutcomeD.ok.injEq] at h; rw [← h]
+          · split at h
+            · simp only [OutcomeD.ok.injEq] at h; rw [← h]; exact hs
+            · simp at h
+
+/-- **sequence_of_assignments (any path).**  Along any sequence of assignments to the same object
+    with derivatives — whole-object and general path mixed, failed ones included — the shape never
+    changes and every step-invariant is preserved. -/
+theorem sequence_of_assignments_any (P : ObjD → Prop) (q : ObjD) (as : List (List Entry × RhsD))
+    (hstep : ∀ q a, a ∈ as → P q → P (stepAny q a)) (h0 : P q) :
+    (assignAny q as).main.shape = q.main.shape ∧ P (assignAny q as) := by
+  induction as generalizing q with
+  | nil => exact ⟨rfl, h0⟩
+  | cons a as ih =>
+    have h1 := hstep q a (by simp) h0
+    obtain ⟨i1, i2⟩ := ih (stepAny q a) (fun q' a' ha' => hstep q' a' (by simp [ha'])) h1
+    refine ⟨?_, i2⟩
+    simp only [assignAny, List.foldl_cons] at i1 ⊢
+    rw [i1]
+    unfold stepAny
+    cases hs : setitemAny q a.1 a.2 with
+    | ok q' => exact setitemAny_shape q q' a.1 a.2 hs
+    | indexError => rfl
+    | valueError => rfl
 
 /-- **shared_mask_untouched.**  The mask array is copied before it is written
     (`self._mask_ = self._mask_.copy()`, indexer.py:192-194, 218-219): every mask array that
